@@ -297,10 +297,9 @@ theorem one_from_boc_eq (H : Bytes → Bytes) (d : Input) :
     | some cells =>
       simp only [Option.map_some, Option.bind_some, List.length_map]
       by_cases h : cells.length > 1
-      · have : ((cells.length : Nat) : Int) > 1 := by omega
-        simp [h, this]
-      · have : ¬ ((cells.length : Nat) : Int) > 1 := by omega
-        simp only [h, this, decide_false, Bool.false_eq_true, if_false]
+      · rw [if_pos h, if_pos (by simp only [decide_eq_true_eq]; omega)]
+        rfl
+      · rw [if_neg h, if_neg (by simp only [decide_eq_true_eq]; omega)]
         cases cells with
         | nil => rfl
         | cons c cs => rfl
